@@ -223,6 +223,8 @@ func generateAwsRoleCert(homeDir string,
 	if err != nil {
 		return err
 	}
+	// An existing file keeps its mode when rewritten: restrict it first.
+	os.Chmod(tlsKeyPath+".key", 0600)
 	err = ioutil.WriteFile(
 		tlsKeyPath+".key",
 		pem.EncodeToMemory(&pem.Block{
@@ -306,6 +308,8 @@ func insertSSHCertIntoAgentORWriteToFilesystem(certText []byte,
 	if err != nil {
 		return err
 	}
+	// An existing file keeps its mode when rewritten: restrict it first.
+	os.Chmod(privateKeyPath, 0600)
 	err = ioutil.WriteFile(
 		privateKeyPath,
 		pem.EncodeToMemory(encodedSigner),
@@ -442,6 +446,8 @@ func setupCerts(
 	if err != nil {
 		return err
 	}
+	// An existing file keeps its mode when rewritten: restrict it first.
+	os.Chmod(tlsKeyPath+".key", 0600)
 	err = ioutil.WriteFile(
 		tlsKeyPath+".key",
 		pem.EncodeToMemory(&pem.Block{Type: "PRIVATE KEY", Bytes: encodedx509Signer}),
